@@ -11,6 +11,7 @@
 package vsched
 
 import (
+	"os"
 	"fmt"
 	"runtime"
 	"runtime/debug"
@@ -252,6 +253,37 @@ func Point() {
 		OnPoint()
 	}
 	schedule()
+}
+
+// LastLog holds the tail of what the server under test logged (the harness points
+// the server's logger at LogTail).
+var LastLog []byte
+
+type logTail struct{}
+
+func (logTail) Write(b []byte) (int, error) {
+	LastLog = append(LastLog, b...)
+	if len(LastLog) > 4096 {
+		LastLog = append([]byte(nil), LastLog[len(LastLog)-2048:]...)
+	}
+	return len(b), nil
+}
+
+// LogTail is an io.Writer keeping the last lines logged.
+var LogTail logTail
+
+// ProcessExit stands for os.Exit in the server's log.Fatal: under the scheduler the
+// "process" that called it ends as a crashed thread (with the fatal message), it
+// does not take the explorer down.
+func ProcessExit(code int) {
+	if !On || cur == nil || cur.ID == 0 {
+		os.Exit(code)
+	}
+	msg := strings.TrimSpace(string(LastLog))
+	if i := strings.LastIndex(msg, "\n"); i >= 0 {
+		msg = msg[i+1:]
+	}
+	panic(fmt.Sprintf("log.Fatal -> os.Exit(%d): %s", code, msg))
 }
 
 // Fine turns the function-entry points inserted by vgen into scheduling points.
